@@ -395,8 +395,9 @@ with js_elements (fuel : nat) (l : list N) : option (list N) :=
   end.
 
 (* JSON-text = ws value ws, and the text is UTF-8 *)
+(* the fuel bounds the recursion only: every call consumes input, a value inside an array costs two units per byte at most *)
 Definition json_grammar (l : list N) : bool :=
-  match js_value (S (length l)) (js_skip_ws l) with
+  match js_value (S (S (2 * length l))) (js_skip_ws l) with
   | Some r => match js_skip_ws r with [] => true | _ => false end
   | None => false
   end.
